@@ -41,7 +41,7 @@ VARIABLES l,
           pendDel,   \* messages the relay delivered to this client, not yet seen at the hook
           pendSend,  \* send errors the relay returned, not yet seen at the hook
           want,      \* [conn -> [Wants -> requests for setStatus not yet executed]]
-          sOpen, sDel, sErr   \* server: successful read attachments / deliveries / stream errors not yet answered by a callback
+          sOpen, sDel, sErr   \* server: read attachment attempts / deliveries / stream errors not yet answered by a callback
 
 tvars == <<l, mode, pendErr, pendDel, pendSend, want, sOpen, sDel, sErr>>
 
@@ -123,12 +123,16 @@ TPub == /\ mode = "c" /\ Is("pub") /\ Adv /\ Ev.st = pub
 KeepC == UNCHANGED <<vars, mode, pendErr, pendDel, pendSend, want>>
 TRelayS ==
     /\ mode = "s" /\ Is("relay") /\ Adv /\ KeepC
-    /\ CASE Ev.rop = "openRecv" /\ Ev.cls = "" -> sOpen' = sOpen + 1 /\ UNCHANGED <<sDel, sErr>>
+    \* RecvStream returns a stream object without an error whatever the relay
+    \* will answer (a streaming call reports its error at the first Recv), so
+    \* the server says "idle" after every attachment attempt, a refused one
+    \* included; the refusal follows as a stream error
+    /\ CASE Ev.rop = "openRecv" -> sOpen' = sOpen + 1 /\ UNCHANGED <<sDel, sErr>>
          [] Ev.rop = "deliver" -> sDel' = sDel + 1 /\ UNCHANGED <<sOpen, sErr>>
          [] Ev.rop \in {"recvErr", "sendErr"} -> sErr' = sErr + 1 /\ UNCHANGED <<sOpen, sDel>>
          [] OTHER -> UNCHANGED <<sOpen, sDel, sErr>>
 \* ServerConn.setStatus calls back on a change only: "idle" (2) once a read
-\* stream is attached, "in use" (1) once a message has arrived, "not
+\* stream has been asked for, "in use" (1) once a message has arrived, "not
 \* connected" (0) after a stream error
 TSrvStatus ==
     /\ mode = "s" /\ Is("srvStatus") /\ Adv /\ KeepC
